@@ -8,6 +8,8 @@ DelAlpha == {T("num","n"), T("fun","f"), T("delim","("), T("delim",")"), T("deli
 CallAlpha == {T("num","n"), T("str","s"), T("fun","f"), T("delim","("), T("delim",")"), T("delim","]"), T("comma",","), T("semi",";")}
 ListAlpha == {T("str","s"), T("delim","["), T("delim","]"), T("delim","("), T("delim",")"), T("comma",","), T("op",":")}
 MapAlpha == {T("num","n"), T("delim","{"), T("delim","}"), T("comma",","), T("op",":"), T("op","?"), T("semi",";")}
+AllAlpha == OpsAlpha \cup DelAlpha \cup ListAlpha \cup CallAlpha
+DelCallMap == DelAlpha \cup CallAlpha \cup MapAlpha
 NestAlpha == {T("num","n"), T("delim","("), T("delim",")"), T("op","-"), T("op","="), T("op","?"), T("op",":"), T("delim","["), T("delim","]")}
 TernAlpha == {T("ref","x"), T("op","?"), T("op",":"), T("op","="), T("op","+"), T("op","not"), T("op","in"), T("delim","("), T("delim",")")}
 
